@@ -1,6 +1,14 @@
 import Driver.Util
 import Driver.Bs
-/-! `amodel <engine>`: reads one operation per line on stdin, prints one observation per line. -/
+import Driver.Codec
+import Driver.Svc
+import Driver.Local
+import Driver.Rt
+import Driver.Tls
+import Driver.Srv
+import Driver.Worker
+/-! `amodel <engine>`: reads one operation per line on stdin, prints one observation per line.
+Each engine lives in its own `Driver/<Engine>.lean` exposing `init` and `step`. -/
 open Driver
 
 def main (args : List String) : IO UInt32 := do
@@ -8,4 +16,11 @@ def main (args : List String) : IO UInt32 := do
   let stdout ← IO.getStdout
   match args with
   | ["bs"] => loop stdin stdout Driver.Bs.step ([] : ActixNet.ByteString.Store); return 0
+  | ["codec"] => loop stdin stdout Driver.Codec.step Driver.Codec.init; return 0
+  | ["svc"] => loop stdin stdout Driver.Svc.step Driver.Svc.init; return 0
+  | ["local"] => loop stdin stdout Driver.Local.step Driver.Local.init; return 0
+  | ["rt"] => loop stdin stdout Driver.Rt.step Driver.Rt.init; return 0
+  | ["tls"] => loop stdin stdout Driver.Tls.step Driver.Tls.init; return 0
+  | ["srv"] => loop stdin stdout Driver.Srv.step Driver.Srv.init; return 0
+  | ["worker"] => loop stdin stdout Driver.Worker.step Driver.Worker.init; return 0
   | _ => IO.eprintln "usage: amodel <engine>"; return 2
